@@ -96,7 +96,26 @@ impl<T: Payload> World<T> {
         let arena = &self.arena;
         let m = &self.m;
         let budget = 2 * arena.count() + 3;
-        let live = m.live_keys();
+        let mut live = m.live_keys();
+        if live.len() > 64 {
+            // large forest: a deterministic sample of start nodes that always contains the deepest
+            // node, the node with most children, the first members of the top-level chains and
+            // every (n/40)-th node
+            let stride = live.len().div_ceil(40);
+            let mut s: Vec<Key> = live.iter().copied().step_by(stride).collect();
+            s.push(live.iter().copied().max_by_key(|k| (m.depth(*k), *k)).unwrap());
+            s.push(live.iter().copied().max_by_key(|k| (m.n(*k).kids.len(), *k)).unwrap());
+            for c in m.chains.values().take(8) {
+                s.push(c[0]);
+                s.push(*c.last().unwrap());
+                s.push(m.root_of(c[0]));
+            }
+            let deepest = *s.iter().max_by_key(|k| m.depth(**k)).unwrap();
+            s.push(m.root_of(deepest));
+            s.sort_unstable();
+            s.dedup();
+            live = s;
+        }
         let edge_id = |e: &MEdge| match e {
             MEdge::Start(k) => NodeEdge::Start(m.id(*k)),
             MEdge::End(k) => NodeEdge::End(m.id(*k)),
